@@ -152,7 +152,8 @@ def c03_c04(case: Case):
         if kind == "member":
             continue
         if (own, name, kind) not in known and not _is_inlined(case, own, name, kind):
-            v3.append({"what": f"stub declaration {own}.{name} ({kind}) has no source declaration", "decl": f"{own}.{name}", "finding": None})
+            finding = "class_attribute_list_items_by_name" if own == "typing" else None
+            v3.append({"what": f"stub declaration {own}.{name} ({kind}) has no source declaration", "decl": f"{own}.{name}", "finding": finding})
     return v3, v4
 
 
@@ -275,6 +276,9 @@ def _union_of(ms):
     return ("union", frozenset(members))
 
 
+BASE_SIMPLE = ("int", "str", "bool", "float", "Any", "None", "ref")
+
+
 def ann_in_domain(a: gen_pkg.Ann) -> bool:
     """annotation terms on which the documented mapping is expected to hold (outside: recorded findings)"""
     for x in a.walk():
@@ -337,6 +341,8 @@ def c05(case: Case):
                     finding = "property_tuple_as_union"
                 if what == "attribute" and ann.kind == "callable" and sty is None:
                     finding = "callable_attribute_untyped"
+                if what == "attribute" and ann.kind == "list" and any(a.kind not in BASE_SIMPLE for a in ann.args):
+                    finding = "class_attribute_list_items_by_name"
                 out.append({"what": f"type of {what} of {t['owner']}.{t['name']}: annotation {ann.src()} rendered as "
                                     f"{sdsparse.type_str(sty)!r}", "decl": f"{t['owner']}.{t['name']}", "finding": finding})
     return out, n
@@ -483,7 +489,8 @@ def c07(case: Case):
                             out.append({"what": f"{qn}: returned value {v!r} at position {i} is not covered by the results "
                                                 f"{[sdsparse.type_str(r['type']) for r in rs]}", "decl": qn,
                                         "finding": "none_result_suppresses_list" if not rs and any(
-                                            y is None for x in f.inferred for y in x) else None})
+                                            y is None for x in f.inferred for y in x) else (
+                                            "tuple_returns_equal_up_to_order" if _permuted_tuples(f.inferred) else None)})
                             break
     return out, n
 
@@ -913,6 +920,18 @@ def c13(case: Case):
         if got != want:
             out.append({"what": f"description of {t['owner']}.{t['name']} is not reproduced line for line: {lines[:4]} vs {want[:4]}",
                         "decl": f"{t['owner']}.{t['name']}", "finding": None})
+    # module descriptions: the stub of a module starts with the module's docstring (and nothing else's)
+    parsed = parsed_files(impl_files(case))
+    for m in case.pkg.modules:
+        d_ = m.path[:-3]
+        stub = parsed.get(f"{d_}/{d_.split('/')[-1].lstrip('_')}.sdsstub")
+        if stub is None or stub[0] is None:
+            continue
+        n += 1
+        got = [ln for dt in stub[0]["doc"] for ln in sdsparse.doc_lines(dt)]
+        want = [ln.strip() for ln in m.doc.strip("\n").split("\n")] if m.doc else []
+        if [g.strip() for g in got] != want:
+            out.append({"what": f"module comment of {m.dotted}: {got[:3]} instead of {want[:3]}", "decl": m.dotted, "finding": None})
     # no comment carries the description of another element
     for (own, name, kind), hits in idx.items():
         if kind == "member":
@@ -1100,3 +1119,9 @@ def names_relation(files_off: dict, files_on: dict) -> list:
         if kind == "class" and name[:1].islower():
             out.append({"what": f"{path}: class {py} is rendered as {name} (not UpperCamelCase)", "decl": py, "finding": None})
     return out
+
+
+def _permuted_tuples(inferred) -> bool:
+    """two returned tuples with the same multiset of element types in a different order"""
+    tys = [tuple(_lit_type_name(v) for v in t) for t in inferred if len(t) > 1]
+    return any(a != b and sorted(a) == sorted(b) for a in tys for b in tys)
